@@ -214,7 +214,13 @@ def concurrent_run(chk, progs, policy):
         next_tid[0] += 1
         t.worker = sc.spawn(tid, t.run, 'net%d' % tid)
     net.start_hook = start_hook
-    net.join_hook = lambda t: sc.yield_point('join', t.worker) if not t.worker.finished else None
+    def join_hook(t, timeout=None):
+        # join() waits until the thread has finished; join(timeout) is a wait that may give up: a scheduling point after which
+        # the caller goes on whether or not the thread has finished (the timeout is "shorter than whatever the other thread does")
+        if t.worker.finished:
+            return None
+        return sc.yield_point('join', t.worker) if timeout is None else sc.yield_point('timed-join')
+    net.join_hook = join_hook
     results, decisions = [], []
     try:
         conn = Connection('localhost', 25565, username='user', allowed_versions={757}, handle_exception=False)
@@ -385,6 +391,16 @@ def negotiated_lifecycles(chk):
 
 
 def run(chk):
+    # (the library's default status handler prints; nothing the connections print belongs in the check's output)
+    import builtins
+    rp, builtins.print = builtins.print, (lambda *a, **k: None)
+    try:
+        run_(chk)
+    finally:
+        builtins.print = rp
+
+
+def run_(chk):
     common.standard_proof(chk, 'Properties/C16.v')
     rng, th = chk.rng, chk.tier == 'thorough'
     hist = []
@@ -441,6 +457,19 @@ def run(chk):
             o = concurrent_run(chk, item['programs'], lambda k, r, d, plan=plan: plan[k] if k < len(plan) else d)
             chk.count('concurrent-corpus', [item['programs'], plan], True)
             check_concurrent(chk, item['programs'], o, 'concurrent-corpus')
+    # a predecessor that is slow to finish: the scheduler always prefers the newest networking thread, then the user threads,
+    # and runs an older networking thread only when nothing else can move (a successor that waits properly cannot move)
+    starve = lambda k, r, d: max(r) if max(r) >= 101 else (min(r) if min(r) < 99 else d)
+    for progs in ([['connect', 'disconnect', 'connect']], [['connect', 'disconnect', 'connect', 'disconnect', 'connect']], [['status', 'disconnect', 'connect']],
+                  [['connect', 'disconnect'], ['connect']], [['connect', 'disconnect_imm', 'connect'], ['disconnect']]):
+        import builtins
+        rp, builtins.print = builtins.print, (lambda *a, **k: None)
+        try:
+            o = concurrent_run(chk, progs, starve)
+        finally:
+            builtins.print = rp
+        chk.count('concurrent-starved', [progs, [d[2] for d in o['decisions']]], True)
+        check_concurrent(chk, progs, o, 'concurrent-starved')
     for _ in range(200 if th else 40):
         progs = [[rng.choice(['connect', 'connect', 'status', 'disconnect', 'disconnect_imm']) for _ in range(rng.randrange(1, 4))] for _ in range(2)]
         o = concurrent_run(chk, progs, c12.random_policy(rng, rng.choice([0.4, 0.7])))
